@@ -66,7 +66,7 @@ pub fn start_candidates(log: &[Event], head: bool) -> Vec<usize> {
     let mut out = Vec::new();
     for e in log {
         match e.kind {
-            EvKind::Open | EvKind::Seek if e.file == 0 => {
+            EvKind::Open | EvKind::Seek | EvKind::Stat if e.file == 0 => {
                 if !out.contains(&e.len) {
                     out.push(e.len);
                 }
